@@ -364,6 +364,11 @@ M("C07", "molekel-pushback-then-continue", F + "molekel.py", r"(            if l
 M("C07", "decorator-returns-in-finally", "iodata/api.py", r"        finally:\n            for warning in warning_list:\n                warnings\.warn\(warning\.message, warning\.category, stacklevel=2\)\n        return result\n", "        finally:\n            for warning in warning_list:\n                warnings.warn(warning.message, warning.category, stacklevel=2)\n            return result\n", "C07-R1", also=[(r"        warning_list = \[\]\n", "        warning_list = []\n        result = None\n")])
 M("C07", "lineiterator-pops-oldest-pushback", "iodata/utils.py", r"self\.stack\.pop\(\) if self\.stack", "self.stack.pop(0) if self.stack", "C07-R6")
 
+M("C03", "wfn-y-coordinate-slice-off-by-one", F + "wfn.py", r"atcoords\[atom, 1\] = float\(line\[36:48\]\)", "atcoords[atom, 1] = float(line[37:48])", "C03-R17")
+M("C03", "charmm-resno-and-resid-swapped", F + "charmm.py", r"resnums\.append\(int\(words\[1\]\)\)", "resnums.append(int(words[8]))", "C03-R18")
+M("C03", "gaussianlog-mirror-store-dropped", F + "gaussianlog.py", r"                result\[j \+ block_counter, i \+ block_counter\] = value\n", "", "C03-R19")
+M("C03", "gaussianlog-row-label-taken-as-value", F + "gaussianlog.py", r"words = next\(lit\)\.split\(\)\[1:\]", "words = next(lit).split()", "C03-R19")
+
 # ----------------------------------------------------------------------------- additions (fourth round, batch 6)
 M("C07", "extxyz-title-parsed-after-putback", F + "extxyz.py", r"    atom_columns, title_data = _parse_title\(title_line, lit\)\n    lit\.back\(title_line\)\n    lit\.back\(atom_line\)\n", "    lit.back(title_line)\n    lit.back(atom_line)\n    atom_columns, title_data = _parse_title(title_line, lit)\n", "C07-R8")
 M("C07", "mol2-atom-loop-skips-blank-lines", F + "mol2.py", r"(    for i in range\(natoms\):\n        words = next\(lit\)\.split\(\)\n)", "\\1        if not words:\n            continue\n", "C07-R9")
